@@ -305,7 +305,7 @@ struct Level1 {
 }
 
 /// Explore one (number, base): levels 0, 1 and (if cap2 > 0) 2.
-pub fn explore_base(prop: &str, number: u16, base_name: &str, base: &[u8], cap2: u64, truncations: bool, rep: &mut Report) {
+pub fn explore_base(prop: &str, number: u16, base_name: &str, base: &[u8], cap2: u64, cap3: u64, truncations: bool, rep: &mut Report) {
     let mut eng = Engine::new(prop, number);
     let id = 0x0200_0000u64 + number as u64;
     watch_enter(id);
@@ -400,6 +400,7 @@ pub fn explore_base(prop: &str, number: u16, base_name: &str, base: &[u8], cap2:
     }
     let control_offsets: HashSet<u32> = per_site.iter().map(|(s, _)| s.0).collect();
     let mut done2 = 0u64;
+    let mut done3 = 0u64;
     let mut capped = false;
     'outer: for pass in 0..2 {
         for (site, vals) in &per_site {
@@ -416,7 +417,7 @@ pub fn explore_base(prop: &str, number: u16, base_name: &str, base: &[u8], cap2:
                         continue;
                     }
                     let cur_j = get_bits(&payload, sj.0 as usize, sj.1 as usize);
-                    let wvals = if is_ctrl_j { site_values(sj, cur_j) } else { boundary_values(sj, cur_j) };
+                    let wvals = if is_ctrl_j || cap3 > 0 { site_values(sj, cur_j) } else { boundary_values(sj, cur_j) };
                     for w in wvals {
                         if done2 >= cap2 {
                             capped = true;
@@ -431,6 +432,28 @@ pub fn explore_base(prop: &str, number: u16, base_name: &str, base: &[u8], cap2:
                             rep.states += 1;
                         }
                         rep.outcome(&format!("L2-{:?}", x2.cls));
+                        // level 3 (thorough): a third deviation on every later control-like field (counts, flags,
+                        // small indices, masks) when the second deviation was itself on a control field and
+                        // changed the shape -- e.g. satellite mask x signal mask x cell mask from the zero base
+                        if cap3 > 0 && is_ctrl_j && x2.shape != x1.shape && done3 < cap3 {
+                            let later3: Vec<(u32, u32, bool)> = sites(&x2.trace).into_iter().filter(|s| s.0 > sj.0 && (s.1 <= 8 || s.1 >= 24 || s.2)).collect();
+                            for sk in later3 {
+                                let cur_k = get_bits(&payload, sk.0 as usize, sk.1 as usize);
+                                for u in boundary_values(sk, cur_k) {
+                                    if done3 >= cap3 {
+                                        break;
+                                    }
+                                    set_bits(&mut payload, sk.0 as usize, sk.1 as usize, u);
+                                    let x3 = eng.run(&payload, PAYLOAD_MAX, rep, &|| dz(3, vec![(site.0, site.1, v), (sj.0, sj.1, w), (sk.0, sk.1, u)], PAYLOAD_MAX));
+                                    done3 += 1;
+                                    if shapes.insert(x3.shape) {
+                                        rep.states += 1;
+                                    }
+                                    rep.outcome(&format!("L3-{:?}", x3.cls));
+                                }
+                                set_bits(&mut payload, sk.0 as usize, sk.1 as usize, cur_k);
+                            }
+                        }
                     }
                     set_bits(&mut payload, sj.0 as usize, sj.1 as usize, cur_j);
                 }
@@ -439,6 +462,7 @@ pub fn explore_base(prop: &str, number: u16, base_name: &str, base: &[u8], cap2:
         }
     }
     rep.add_extra_u64("level2_executions", done2);
+    rep.add_extra_u64("level3_executions", done3);
     if capped {
         rep.add_extra_u64("bases_where_level2_cap_was_hit", 1);
     } else {
@@ -451,7 +475,8 @@ pub fn run_decode_engine(ctx: &Ctx, prop: &'static str) -> Report {
     let nums: Vec<u16> = feature_numbers().into_iter().collect();
     let td = testdata_frames();
     let thorough = ctx.tier.thorough();
-    let cap2: u64 = if thorough { 400_000 } else { 3_000 };
+    let cap2: u64 = if thorough { 1_500_000 } else { 3_000 };
+    let cap3: u64 = if thorough { 150_000 } else { 0 };
     let mut jobs: Vec<(u16, String, Vec<u8>)> = vec![];
     for &n in &nums {
         for (name, b) in bases_for(n, &td, thorough) {
@@ -471,7 +496,7 @@ pub fn run_decode_engine(ctx: &Ctx, prop: &'static str) -> Report {
     let parts = par_shards(jobs.len(), |i| {
         let mut rep = Report::new();
         let (n, name, b) = &jobs[i];
-        explore_base(prop, *n, name, b, cap2, truncations, &mut rep);
+        explore_base(prop, *n, name, b, cap2, cap3, truncations, &mut rep);
         rep.add_extra_u64("bases", 1);
         rep
     });
@@ -481,6 +506,7 @@ pub fn run_decode_engine(ctx: &Ctx, prop: &'static str) -> Report {
     }
     rep.extra.insert("supported_numbers".into(), json!(nums.len()));
     rep.extra.insert("level2_cap_per_base".into(), json!(cap2));
+    rep.extra.insert("level3_cap_per_base".into(), json!(cap3));
     rep
 }
 
